@@ -5,6 +5,8 @@ TYPES = {'FUT': 'cocls::future<int>', 'FUTL': 'cocls::future<long>', 'FC': 'cocl
          'AWT': 'cocls::awaiter', 'SP': 'cocls::suspend_point<void>', 'SPB': 'cocls::suspend_point<bool>', 'EPTR': 'std::__exception_ptr::exception_ptr',
          'CB': CBQ, 'CBS': CBSQ, 'CONVB': 'cocls::future_conv_promise_base<int, long>', 'HLP': 'cocls::future_conv_promise_base<int, long>::Hlp',
          'FAC': 'c18_factory', 'CBT': 'c18_cb', 'OBJ': 'c18_obj', 'CTX': 'c18_ctx', 'STOR': 'c18_storage', 'ATOMB': 'std::atomic<bool>'}
+# void-source future_conv specialisations (audit E/D3): own type table, the int-source units do not contain these types
+TYPES_V = {'FUTV': 'cocls::future<void>', 'CONVBV': 'cocls::future_conv_promise_base<void, long>', 'CTX0': 'c18_ctx0'}
 GLOBALS = {'AW_INSTANCE': '_ZN5cocls7awaiter8instanceE', 'AW_DISABLED': '_ZN5cocls7awaiter8disabledE', 'TI_AWAIT_CANCELED': '_ZTIN5cocls24await_canceled_exceptionE',
            'TI_VALUE_NOT_READY': '_ZTIN5cocls25value_not_ready_exceptionE'}
 VT_CBS = {'VT_CBS': '_ZTVN5cocls21custom_allocator_baseI11c18_storageNS_14future_with_cbIi6c18_cbEEEE'}
@@ -14,7 +16,7 @@ def rx(s): return re.escape(s).replace('\\ ', ' ')
 CBR = rx(CBQ); CBSR = rx(CBSQ)
 CFAR = r'cocls::call_fn_future_awaiter<&c18_obj::done>'
 CONVBR = r'cocls::future_conv_promise_base<int, long>'
-def conv_r(w): return r'cocls::future_conv<&' + {'m': r'c18_ctx::conv', 'f': r'\(c18_conv_free\(int&\)\)', 'p': r'c18_ctx::conv_p'}[w] + '>'
+def conv_r(w): return r'cocls::future_conv<&' + {'m': r'c18_ctx::conv', 'f': r'\(c18_conv_free\(int&\)\)', 'p': r'c18_ctx::conv_p', 'v': r'c18_ctx0::conv0', 'vp': r'c18_ctx0::conv0_p'}[w] + '>'
 LAM = r'::\{lambda\(cocls::awaiter\*, void\*\)#1\}::__invoke\(cocls::awaiter\*, void\*\)$'
 N = dict(
     # environment / abstract callees
@@ -34,6 +36,8 @@ N = dict(
     cb_ctor_fn='^' + CBR + r'::future_with_cb\(c18_cb&&\)$',
     cbs_ctor_fn='^' + CBSR + r'::custom_allocator_base\(c18_cb&&\)$',
     cb_invoke=r'^cocls::suspend_point<void> ' + CBR + r'::future_with_cb\(c18_cb&&\)::\{lambda\(cocls::awaiter\*, auto:1\)#1\}::__invoke<void\*>\(cocls::awaiter\*, void\*\)$',
+    cb_shift=r'^drv_cb_shift$',
+    cb_shift_op='^(void|' + CBR + '&) ' + CBR + r'::operator<< <c18_factory>\(c18_factory&&\)$',
     make_promise=r'^cocls::promise<int> cocls::make_promise<int, c18_cb>\(c18_cb&&\)$',
     make_promise_st=r'^cocls::promise<int> cocls::make_promise<int, c18_cb, c18_storage>\(c18_cb&&, c18_storage&\)$',
     discard=r'^void cocls::discard<c18_factory>\(c18_factory&&\)$',
@@ -48,9 +52,12 @@ N = dict(
     conv_call='^' + CONVBR + r'::operator\(\)\(cocls::promise<long>&&\)$',
     hlp_shift=r'^void ' + CONVBR + r'::Hlp::operator<< <c18_factory>\(c18_factory&&\)$',
     conv_m_ctor='^' + conv_r('m') + r'::future_conv\(c18_ctx\*\)$', conv_f_ctor='^' + conv_r('f') + r'::future_conv\(\)$', conv_p_ctor='^' + conv_r('p') + r'::future_conv\(c18_ctx\*\)$',
+    ctx0_conv=r'^c18_ctx0::conv0\(\)$', ctx0_conv_p=r'^c18_ctx0::conv0_p\(cocls::promise<long>&\)$',
+    conv_v_ctor='^' + conv_r('v') + r'::future_conv\(c18_ctx0\*\)$', conv_vp_ctor='^' + conv_r('vp') + r'::future_conv\(c18_ctx0\*\)$',
+    conv_v_invoke='^' + conv_r('v') + r'::future_conv\(c18_ctx0\*\)' + LAM, conv_vp_invoke='^' + conv_r('vp') + r'::future_conv\(c18_ctx0\*\)' + LAM,
     conv_m_invoke='^' + conv_r('m') + r'::future_conv\(c18_ctx\*\)' + LAM, conv_f_invoke='^' + conv_r('f') + r'::future_conv\(\)' + LAM, conv_p_invoke='^' + conv_r('p') + r'::future_conv\(c18_ctx\*\)' + LAM,
 )
-ABSTRACT = ('fc_subscribe', 'fac_call', 'user_cb', 'st_alloc', 'st_dealloc', 'obj_done', 'ctx_conv', 'ctx_conv_p', 'conv_free', 'pl_call_val', 'pl_call_exc', 'pl_dtor', 'ab_wait', 'sp_suspend_now')
+ABSTRACT = ('fc_subscribe', 'fac_call', 'user_cb', 'st_alloc', 'st_dealloc', 'obj_done', 'ctx_conv', 'ctx_conv_p', 'conv_free', 'ctx0_conv', 'ctx0_conv_p', 'pl_call_val', 'pl_call_exc', 'pl_dtor', 'ab_wait', 'sp_suspend_now')
 BASE_ABS = ('ab_wait', 'sp_suspend_now')
 def unit(name, alias, uses=(), extra_types=None, ptypes=None, extra_globals=None, extra_defines=(), extra_roots=(), **kw):
     uses = tuple(uses) + BASE_ABS
@@ -63,6 +70,8 @@ def unit(name, alias, uses=(), extra_types=None, ptypes=None, extra_globals=None
              defines=['CV_NO_HEAP_PRIMS 1'] + list(extra_defines), unwind=4, under_contract=[N[alias].strip('^$').replace('\\', '')])
     d.update(kw)
     return d
+REPLAY_D3 = dict(src='c18_conv_void_source.cpp', mode='D3', flags=['-g', '-fsanitize=address,undefined'])
+REPLAY_CBSHIFT = dict(src='c18_future_with_cb_shift.cpp', mode='CBSHIFT', flags=['-DNDEBUG', '-g', '-fsanitize=address,undefined'])
 DAWT = {'DAWT': N['d_ctor'] + '#0'}
 CFAT = {'CFA': N['cfa_ctor'] + '#0'}
 UNITS = [
@@ -71,6 +80,9 @@ UNITS = [
     unit('cb_invoke_storage', 'cb_invoke', uses=('user_cb', 'cbs_ctor_fn', 'st_dealloc', 'st_alloc'), extra_defines=['CV_HAS_cb_invoke_u 1', 'CV_C18_STORAGE 1'], extra_roots=['cbs_ctor_fn', 'cbs_dtors', 'cb_dtors'], harness='h_cb_invoke', extra_globals=dict(VT_CB, **VT_CBS)),
     unit('make_promise', 'make_promise', uses=('user_cb', 'cb_invoke')),
     unit('make_promise_st', 'make_promise_st', uses=('user_cb', 'cb_invoke', 'st_alloc', 'st_dealloc'), extra_globals=VT_CBS),
+    # audit E "Adjacent" / audit A item 2: future_with_cb::operator<<(factory) - the helper's second registration route (through the fixed-signature wrapper drv_cb_shift)
+    unit('cb_shift', 'cb_shift', uses=('cb_shift_op', 'user_cb', 'cb_ctor_fn', 'cb_invoke', 'fac_call', 'fc_subscribe'), extra_roots=['cb_ctor_fn', 'cb_dtors'], extra_globals=VT_CB, replay=REPLAY_CBSHIFT,
+         under_contract=['cocls::future_with_cb<int, c18_cb>::operator<< <c18_factory>(c18_factory&&)']),
     unit('discard', 'discard', uses=('fac_call', 'fc_subscribe', 'd_fin', 'd_ctor'), ptypes=DAWT),
     unit('d_fin', 'd_fin', uses=('d_dtor',), ptypes={'DAWT': N['d_dtor'] + '#0'}, extra_defines=['CV_HAS_d_fin_u 1'], extra_roots=['d_dtor']),
     unit('cfa_ctor', 'cfa_ctor', uses=('cfa_wakeup', 'obj_done'), ptypes=CFAT),
@@ -82,6 +94,11 @@ UNITS = [
     unit('conv_m_invoke', 'conv_m_invoke', uses=('ctx_conv', 'pl_call_val', 'pl_call_exc', 'pl_dtor', 'fc_subscribe'), extra_defines=['CV_HAS_conv_m_invoke_u 1']),
     unit('conv_f_invoke', 'conv_f_invoke', uses=('conv_free', 'pl_call_val', 'pl_call_exc', 'pl_dtor', 'fc_subscribe'), extra_defines=['CV_HAS_conv_f_invoke_u 1']),
     unit('conv_p_invoke', 'conv_p_invoke', uses=('ctx_conv_p', 'pl_call_val', 'pl_call_exc', 'pl_dtor', 'fc_subscribe'), extra_defines=['CV_HAS_conv_p_invoke_u 1']),
+    # void-source specialisations (audit E/D3): "Converters deliver ... the exception thrown by the source" - same CONV_INVOKE postconditions
+    unit('conv_v_ctor', 'conv_v_ctor', uses=('conv_v_invoke', 'ctx0_conv', 'pl_call_val', 'pl_call_exc', 'pl_dtor', 'fc_subscribe'), ptypes={'CONVV': N['conv_v_ctor'] + '#0'}, extra_types=TYPES_V),
+    unit('conv_vp_ctor', 'conv_vp_ctor', uses=('conv_vp_invoke', 'ctx0_conv_p', 'pl_call_val', 'pl_call_exc', 'pl_dtor', 'fc_subscribe'), ptypes={'CONVVP': N['conv_vp_ctor'] + '#0'}, extra_types=TYPES_V),
+    unit('conv_v_invoke', 'conv_v_invoke', uses=('ctx0_conv', 'pl_call_val', 'pl_call_exc', 'pl_dtor', 'fc_subscribe'), extra_defines=['CV_HAS_conv_v_invoke_u 1'], extra_types=TYPES_V, replay=REPLAY_D3),
+    unit('conv_vp_invoke', 'conv_vp_invoke', uses=('ctx0_conv_p', 'pl_call_val', 'pl_call_exc', 'pl_dtor', 'fc_subscribe'), extra_defines=['CV_HAS_conv_vp_invoke_u 1'], extra_types=TYPES_V, replay=REPLAY_D3),
     unit('conv_shift', 'conv_shift', uses=('fac_call', 'fc_subscribe')),
     unit('conv_call', 'conv_call'),
     unit('hlp_shift', 'hlp_shift', uses=('fac_call', 'fc_subscribe')),
@@ -110,6 +127,28 @@ def drive(before, counting):
                 defines=['CV_NO_HEAP_PRIMS 1', 'CV_NO_SPURIOUS_CAS 1', FRAMES, 'DRIVE_cbawait 1', 'DRIVE_BEFORE %d' % before, 'DRIVE_COUNTING %d' % counting],
                 unwind=6, object_bits=11, kind='bounded', timeout=600, bounded=what, under_contract=[], replay=REPLAY)
 UNITS += [drive(b, c) for c in (0, 1) for b in (1, 0)]
+# audit E/D6: the completion throws while it handles the outcome - "runs exactly once per awaited operation" must hold all the same
+FRAME_THROW = ('CV_FRAME_KINDS X(3, S__ZN5cocls8_details19callback_await_coroINS_15default_storageENS_6futureIiEE12c18_throw_fnJR6c18_opEEENS_14with_allocatorIT_NS_5asyncIvEEEERS9_T1_DpT2__Frame)')
+REPLAY_D6 = dict(src='c18_cb_throw.cpp', mode='D6', flags=['-I', '/verif/drivers', '-g', '-fsanitize=address,undefined'])
+def drive_throw(before):
+    what = ('callback_await (default_storage) on a future<int> with a completion that may throw (symbolic) while handling the outcome, %s; symbolic outcome (value / exception / promise dropped) '
+            'and values; single thread, no spurious CAS failure' % ('resolved before registration' if before else 'resolved after registration (same thread)'))
+    return dict(name='drive_cbthrow_%s' % ('before' if before else 'after'), driver='c18_drive.cpp', roots=[r'^c18_drive_cbthrow$'], names={}, names_opt=dict(AP), types=D_TYPES, globals=D_GLOBALS,
+                boundary=D_BOUNDARY, lib=['rt_core.c', 'rt_atomic_seq.c', 'model_dq_ring.c', 'model_heap_frames.c'], spec=['C18/h_drive.c'], harness='h_drive',
+                defines=['CV_NO_HEAP_PRIMS 1', 'CV_NO_SPURIOUS_CAS 1', FRAME_THROW, 'DRIVE_cbthrow 1', 'DRIVE_BEFORE %d' % before, 'DRIVE_COUNTING 0'],
+                unwind=6, object_bits=11, kind='bounded', timeout=600, bounded=what, under_contract=[], replay=REPLAY_D6)
+UNITS += [drive_throw(b) for b in (1, 0)]
+# audit E/D7 + W5: the operation cannot be started (the awaitable's constructor / the factory throws)
+FRAME_CTOR = ('CV_FRAME_KINDS X(4, S__ZN5cocls8_details19callback_await_coroINS_15default_storageENS_6futureIiEE13c18_record_fnJR14c18_failing_opEEENS_14with_allocatorIT_NS_5asyncIvEEEERS9_T1_DpT2__Frame)')
+REPLAY_D7 = dict(src='c18_start_throws.cpp', mode='D7', flags=['-I', '/verif/drivers', '-g', '-fsanitize=address,undefined'])
+def drive_fail(kind, root, frames, what):
+    return dict(name='drive_%s' % kind, driver='c18_drive.cpp', roots=[root], names={}, names_opt=dict(AP, probe=r'^c18_probe$'), types=D_TYPES,
+                globals=dict(D_GLOBALS, G_CALLER_SAW='g_caller_saw', G_CALLER_CODE='g_caller_code'), boundary=D_BOUNDARY + [r'^c18_probe$'],
+                lib=['rt_core.c', 'rt_atomic_seq.c', 'model_dq_ring.c', 'model_heap_frames.c'], spec=['C18/h_drive.c'], harness='h_drive',
+                defines=['CV_NO_HEAP_PRIMS 1', 'CV_NO_SPURIOUS_CAS 1', frames, 'DRIVE_%s 1' % kind, 'DRIVE_BEFORE 0', 'DRIVE_COUNTING 0'],
+                unwind=6, object_bits=11, kind='bounded', timeout=600, bounded=what + '; symbolic error code; single thread', under_contract=[], replay=REPLAY_D7)
+UNITS += [drive_fail('cbctor', r'^c18_drive_cbctor$', FRAME_CTOR, 'callback_await (default_storage) on a future<int> whose starting function throws inside the awaitable\'s constructor'),
+          drive_fail('discard_fail', r'^c18_drive_discard_fail$', 'CV_FRAME_KINDS', 'composition: discard() of a factory that throws')]
 def compose(kind, root, what, before=None, counting=None, types=D_TYPES, extra_globals=None):
     nm = 'drive_%s' % kind + ('' if before is None else ('_before' if before else '_after')) + ('' if counting is None else ('_storage' if counting else '_heap'))
     g = dict(D_GLOBALS); g.update(extra_globals or {})
@@ -126,8 +165,10 @@ UNITS += [compose('conv', r'^c18_drive_conv$', 'composition: future_conv<member 
 META = dict(
     level='proof',
     level_text=('The non-coroutine adapters are verified against contracts taken from the property statement: future_with_cb (constructor; its resume lambda, heap and storage variant), make_promise (both overloads), '
+        'future_with_cb::operator<< (the helper\'s second registration route, through the fixed-signature driver wrapper drv_cb_shift with the real operator<< / result_of / resume lambda / destructor inside), '
         'discard (whole function incl. its Awt constructor and the `if(!w) resume()` tail; Awt::fin), call_fn_future_awaiter (constructor, operator<<, wakeup), future_conv_promise_base (operator<<, operator(), '
-        'Hlp::operator<<) and the constructors + resume lambdas of three future_conv specialisations (member function, free function, member function with promise). The timing is carried by the abstract callee '
+        'Hlp::operator<<) and the constructors + resume lambdas of five future_conv specialisations (member function, free function, member function with promise; for a void source: member function, member '
+        'function with promise). The timing is carried by the abstract callee '
         'future_common::subscribe: it answers with a nondeterministic bool recorded in ghost state - false = already resolved at registration (or resolved by another thread just before), true = subscribed - and, '
         'when it answers true, may let the resolving thread run the awaiter\'s REAL resume function to completion before the registering thread continues (concurrent resolution; anything the adapter touches '
         'afterwards is then a use-after-free). Every unit is verified for BOTH answers and for the operation\'s three outcomes (value / exception / dropped promise), each with a reachability sentinel. '
@@ -135,24 +176,31 @@ META = dict(
         'by the resolver otherwise, never both, never neither - and sees the operation\'s outcome on a resolved future; future_with_cb calls fn while the object is alive and then releases the block exactly once '
         '(global delete, or the given storage with the same pointer and size); make_promise allocates exactly one block (from the storage if one is given) holding an unresolved future whose only waiter is its own '
         'awaiter and returns the promise armed for exactly that future; discard allocates one block and releases it exactly once in every timing; the future_conv lambdas resolve the OUTER future exactly once with '
-        'exactly the converted value, the converter\'s exception, the source\'s exception, or await_canceled_exception for a broken source promise, and never leave the parked promise armed. '
-        'callback_await (a coroutine) is covered by bounded drives of the really lowered callback_await_coro; further drives run each non-coroutine adapter end to end on the real promise/future code.'),
+        'exactly the converted value, the converter\'s exception, the source\'s exception, or await_canceled_exception for a broken source promise (also for a void source, which has no payload but still has '
+        'an outcome), run the converter only for a source that delivered, and never leave the parked promise armed; future_with_cb::operator<< starts the operation once, captures the awaited future in the helper and '
+        'either has run the callback exactly once with the outcome and released the block once, or has registered the helper\'s awaiter with that future - the completion is never lost. '
+        'callback_await (a coroutine) is covered by bounded drives of the really lowered callback_await_coro - including a completion that throws while it handles the outcome (still exactly one call; its own failure '
+        'is not reported to it as the operation\'s outcome) and an operation whose start throws inside the awaitable\'s constructor (the completion runs once in exception state, or the registering caller sees the '
+        'exception; never neither); further drives run each non-coroutine adapter end to end on the real promise/future code, and discard() with a factory that throws (caller sees the exception, block released).'),
     level_note=('Trusted: the abstract callee future_common::subscribe and its environment model (its real behaviour under interference = specs/C02; that a subscribed awaiter is resumed exactly once after the '
         'resolution = C01/C02), the outer promise<long> operations as recording stubs in the future_conv lambda units (real behaviour = C01, proved there for promise<int>), user code as recording stubs that do not '
-        'throw except where stated (converter), clang front end, ir2c; DFCC makes vtables nondeterministic, the harness of the resume-lambda units re-establishes the two destructor slots. '
+        'throw except where stated (converter; the throwing completion of the drive_cbthrow drives), clang front end, ir2c; DFCC makes vtables nondeterministic, the harness of the resume-lambda units re-establishes the two destructor slots. '
         'Documented preconditions written as requires: an adapter object is not re-armed while a previous operation is pending; the resume function runs only after the awaited future was resolved. '
         'BOUNDED (never counted as discharged): callback_await / callback_await_alloc drives = timing (before / after registration, same thread) x storage (default_storage / counting storage) as units, outcome '
-        '(value / exception / dropped promise) and values symbolic; composition drives of make_promise, discard, call_fn_future_awaiter, future_conv with symbolic outcome; single thread, std::atomic<T*> read at '
+        '(value / exception / dropped promise) and values symbolic; callback_await with a completion that may throw (symbolic) x timing; callback_await / discard with a starting function that throws; composition drives of make_promise, discard, call_fn_future_awaiter, future_conv with symbolic outcome; single thread, std::atomic<T*> read at '
         'member-function level, no spurious CAS failure; timing and storage are concrete per unit because symbolic control makes the lowered state machines fork beyond reach (measured). The drive oracles are '
-        'confirmed natively (g++, ASan/UBSan) by replay/c18_drive.cpp. Not covered: concurrent resolution of callback_await on another thread beyond the C02 subscription contract, the factory function itself '
-        'throwing inside operator<< (result_of\'s catch path), future_conv specialisations for void sources / void targets / free function with context, value types other than int / long, a callback that throws '
-        '(std::terminate by noexcept), await_result<void>.'),
+        'confirmed natively (g++, ASan/UBSan) by replay/c18_drive.cpp, replay/c18_cb_throw.cpp, replay/c18_start_throws.cpp. Not covered: concurrent resolution of callback_await on another thread beyond the C02 '
+        'subscription contract, the factory function itself throwing inside operator<< of future_with_cb / call_fn_future_awaiter / future_conv (result_of\'s catch path turns it into an exception outcome; only '
+        'callback_await and discard are driven with a throwing start), future_conv specialisations for void targets / free function with context, value types other than int / long / void source, a throwing '
+        'completion of make_promise / call_fn_future_awaiter (their resume functions are noexcept: std::terminate) - a throwing completion of callback_await does NOT terminate: callback_await_coro catches it '
+        '(and, after the value was delivered, must not call the completion again - drives drive_cbthrow_*); an exception thrown by the completion in exception state is swallowed by the detached coroutine\'s '
+        'unhandled_exception(); await_result<void>; future_with_cb::operator<< on the storage-allocated variant (same function instance, destructor path covered by cb_invoke_storage).'),
     technique='CBMC code contracts via goto-instrument --dfcc on the C translation of clang IR of future.h / future_conv.h with the subscription as an abstract callee that also plays the concurrent resolver; bounded symbolic execution of the really lowered callback_await_coro and of end-to-end adapter scenarios',
     trusted_base=['abstract callee future_common::subscribe incl. the concurrent-resolver step, factory of the awaited future, user callbacks / converters / storage, outer promise<long> operations as recording stubs (specs/C18/c18_spec.h)',
                   'sequential atomic primitives for the adapter-local atomics (lib/rt_atomic_seq.c): adapter objects are touched by one thread at a time, ordered by the subscription protocol (C02)',
                   'exception_ptr reference counting stubs (lib/rt_core.c)',
                   'bounded drives only: concrete ring model of std::deque<coroutine_handle<>> (lib/model_dq_ring.c), typed coroutine frames (lib/model_heap_frames.c), std::atomic<T*> at member-function level (specs/C18/h_drive.c)'],
     assumptions=['a subscribed awaiter is resumed exactly once, after the resolution, by the resolving thread (C01 / C02)', 'promise<long> behaves like the promise<int> verified in C01',
-                 'user callbacks do not throw (documented: resume functions are noexcept); converters may throw', 'adapter objects are not re-armed while an operation is pending (documented)',
+                 'user callbacks of make_promise / call_fn_future_awaiter do not throw (documented: resume functions are noexcept); converters may throw; the completion of callback_await may throw (drive_cbthrow_*)', 'adapter objects are not re-armed while an operation is pending (documented); future_with_cb::operator<< is used on a helper as its constructor left it (no promise handed out)',
                  'bounded drives: one operation per scenario, single thread'],
     explanation='see level_text')
